@@ -274,6 +274,7 @@ func (r *connRun) observe() string {
 }
 
 func (r *connRun) record(act, human string) {
+	r.e.inflight(map[string]interface{}{"trace_so_far": r.replay(), "last": human})
 	quiesce()
 	defer func() { r.closedBefore = r.closed }()
 	r.trace = append(r.trace, human)
@@ -781,6 +782,8 @@ func runConn(work, prop string) {
 	}
 	if prop == "C03" {
 		connStreamCuts(e)
+		connCutStress(e)
+		streamMultiReader(e)
 	}
 	if prop == "C06" {
 		errorTextSweep(e)
